@@ -2,7 +2,7 @@
    (Gen/SrcValidateClaims.v): what each appends to the validation results is the model's issue list.  Judgements of
    nkeys and of the time package are unknown functions in the translation; the theorems instantiate them by the
    model's Section variables (key roles, clock-time syntax). *)
-From JWT Require Import Base.GoSem Proofs.SrcBase Gen.SrcValidateClaims Model.Subject Model.Validate.
+From JWT Require Import Base.GoSem Proofs.SrcBase Gen.SrcSubject Proofs.SrcSubject Gen.SrcValidateClaims Model.Subject Model.Validate.
 Open Scope string_scope.
 Open Scope list_scope.
 
@@ -122,6 +122,118 @@ Section Oracles.
     unfold V2.TimeRange_Validate, v_time_range, parse_err. cbv zeta.
     destruct (tr_start t =? ""); destruct (tr_end t =? ""); destruct (hhmmss_ok (tr_start t)); destruct (hhmmss_ok (tr_end t));
       cbn; rewrite <- ?app_assoc, ?app_nil_r; reflexivity.
+  Qed.
+
+  (* ---------- Import.Validate: the binding of an embedded activation token (C10); Imports.Validate ----------
+     The imports of the list and the activation a token decodes to are opaque values in the translation (one type of
+     values, known through what the code reads off them); here they are [gvi]: nil, an import of the model, an
+     activation view of the model.  DecodeActivationClaims is an unknown function of the token text: the model's [act_of],
+     nil when decoding fails. *)
+  Variable act_of : string -> option act_view.
+  Inductive gvi := IVnil | IVimport (i : import) | IVact (av : act_view).
+  Definition o_decode_act (tok : string) : gvi * option string :=
+    match act_of tok with Some av => (IVact av, None) | None => (IVnil, Some "invalid activation token") end.
+  Definition o_act {A} (f : act_view -> A) (d : A) (v : gvi) : A := match v with IVact av => f av | _ => d end.
+  Definition o_imp {A} (f : import -> A) (d : A) (v : gvi) : A := match v with IVimport i => f i | _ => d end.
+  Definition imp_of (v : gvi) : option import := match v with IVimport i => Some i | _ => None end.
+  Definition gv_of (oi : option import) : gvi := match oi with Some i => IVimport i | None => IVnil end.
+
+  Lemma vc_contained s o : SrcValidateClaims.V2.Subject_IsContainedIn s o = is_contained_in s o.
+  Proof. exact (src_is_contained_in s o). Qed.
+
+  Definition src_import_validate now (act_pub : string) (v : gvi) (vr : list go_issue) : list go_issue :=
+    SrcValidateClaims.V2.Import_Validate gvi IVnil o_decode_act is_acct now (o_imp im_account "" v) (o_imp im_allow_trace false v) (o_imp im_local "" v)
+      (o_imp (fun i from => map goi (v_renaming (im_local i) from)) (fun _ => []) v) (o_imp im_share false v) (o_imp im_subject "" v)
+      (o_imp im_to "" v) (o_imp im_token "" v) (o_imp im_type 0%Z v) (o_imp (fun _ => false) true v)
+      (o_act (fun av => at_subject (av_act av)) "") (o_act (fun av => at_type (av_act av)) 0%Z)
+      (o_act (fun av => at_issuer_account (av_act av)) "") (o_act (fun av => cd_exp (av_cd av)) 0%Z)
+      (o_act (fun av => cd_iss (av_cd av)) "") (o_act (fun av => cd_nbf (av_cd av)) 0%Z)
+      (o_act (fun av => cd_sub (av_cd av)) "") (o_act (fun _ => false) true) act_pub vr.
+
+  Lemma vc_import now (act_pub : string) (oi : option import) (vr : list go_issue) :
+    src_import_validate now act_pub (gv_of oi) vr = vr ++ map goi (v_import role_of act_of act_pub oi).
+  Proof.
+    unfold src_import_validate. destruct oi as [i|]; [|reflexivity]. cbn [gv_of o_imp].
+    unfold SrcValidateClaims.V2.Import_Validate, SrcValidateClaims.V2.Import_IsService, SrcValidateClaims.V2.Import_IsStream, SrcValidateClaims.V2.Import_GetTo, v_import, v_import_token.
+    cbv zeta. fold (is_service (im_type i)). fold (is_stream (im_type i)).
+    rewrite !vc_subject.
+    unfold o_decode_act.
+    destruct (im_token i =? "") eqn:Et; cbn [negb].
+    - cbn [o_act]. rewrite !map_app, !map_when. rewrite app_nil_r.
+      destruct (negb (im_local i =? "")); rewrite ?map_app, ?map_when; cbn [map]; factor_reports; rewrite ?app_nil_r; reflexivity.
+    - destruct (act_of (im_token i)) as [av|]; cbn [go_err_isnil negb o_act].
+      + rewrite (vc_activation_claims now false (av_cd av) (av_act av)). unfold v_activation_claims.
+        rewrite vc_contained. rewrite !map_app, !map_when. cbn [app].
+        destruct (negb (im_local i =? "")); rewrite ?map_app, ?map_when; cbn [map]; factor_reports; rewrite ?app_nil_r; reflexivity.
+      + rewrite !map_app, !map_when. cbn [map].
+        destruct (negb (im_local i =? "")); rewrite ?map_app, ?map_when; cbn [map]; factor_reports; rewrite ?app_nil_r; reflexivity.
+  Qed.
+
+  (* Imports.Validate: the list walked once, the subjects service imports are delivered on collected in a set, every
+     new one compared with all collected ones *)
+  Definition src_imports_validate now (act_pub : string) (l : list (option import)) (vr : list go_issue) : list go_issue :=
+    SrcValidateClaims.V2.Imports_Validate gvi IVnil o_decode_act is_acct now
+      (o_act (fun av => at_subject (av_act av)) "") (o_act (fun av => at_type (av_act av)) 0%Z)
+      (o_act (fun av => at_issuer_account (av_act av)) "") (o_act (fun av => cd_exp (av_cd av)) 0%Z)
+      (o_act (fun av => cd_iss (av_cd av)) "") (o_act (fun av => cd_nbf (av_cd av)) 0%Z)
+      (o_act (fun av => cd_sub (av_cd av)) "") (o_act (fun _ => false) true)
+      (o_imp im_account "") (o_imp im_allow_trace false) (o_imp im_local "") (o_imp (fun i => to_subject (im_local i)) "")
+      (o_imp (fun i from => map goi (v_renaming (im_local i) from)) (fun _ => [])) (o_imp im_share false) (o_imp im_subject "")
+      (o_imp im_to "") (o_imp im_token "") (o_imp im_type 0%Z) (o_imp (fun _ => false) true)
+      (map gv_of l) act_pub vr.
+
+  Definition ovl_body (sub : string) (_ : Z) (k : string) (vr : list go_issue) : ctl (list go_issue) (list go_issue) :=
+    Cont (if SrcValidateClaims.V2.Subject_IsContainedIn sub k || SrcValidateClaims.V2.Subject_IsContainedIn k sub then vr ++ [GoError] else vr).
+  Lemma ovl_loop sub : forall (ts : list string) (i : Z) (vr : list go_issue),
+    go_range (ovl_body sub) i ts vr
+    = inl (vr ++ map goi (flat_map (fun k => when (is_contained_in sub k || is_contained_in k sub) Blocking) ts)).
+  Proof.
+    induction ts as [|k ts IH]; intros i vr; [cbn; now rewrite app_nil_r|].
+    cbn [go_range flat_map]. unfold ovl_body at 1. rewrite IH, !vc_contained, map_app, map_when.
+    destruct (is_contained_in sub k || is_contained_in k sub); cbn [app]; rewrite <- ?app_assoc; reflexivity.
+  Qed.
+
+  Local Set Warnings "-variable-collision".
+  Lemma smem_existsb (ts : list string) (sub : string) : go_smem ts sub = existsb (fun k => (k =? sub)%string) ts.
+  Proof. unfold go_smem. induction ts as [|k ts IH]; [reflexivity|]. cbn [existsb]. rewrite IH, String.eqb_sym. reflexivity. Qed.
+
+  Lemma vc_imports now (act_pub : string) (l : list (option import)) (vr : list go_issue) :
+    src_imports_validate now act_pub l vr = vr ++ map goi (v_imports role_of act_of act_pub l).
+  Proof.
+    unfold src_imports_validate, SrcValidateClaims.V2.Imports_Validate, v_imports. cbv zeta.
+    match goal with |- context [go_range ?B 0%Z _ _] => set (body := B) end.
+    assert (Hloop : forall (l : list (option import)) (i : Z) (vr : list go_issue) (ts : list string),
+              exists ts', go_range body i (map gv_of l) (vr, ts) = inl (vr ++ map goi (v_imports_loop role_of act_of act_pub l ts), ts')).
+    { clear l vr. induction l as [|oi l IH]; intros i vr ts; [exists ts; cbn; now rewrite app_nil_r|].
+      cbn [map go_range]. unfold body at 1. cbv beta zeta.
+      destruct oi as [im|]; cbn [gv_of o_imp v_imports_loop].
+      - fold (is_service (im_type im)).
+        change (SrcValidateClaims.V2.Import_Validate gvi IVnil o_decode_act is_acct now (im_account im) (im_allow_trace im) (im_local im)
+                  (fun from => map goi (v_renaming (im_local im) from)) (im_share im) (im_subject im) (im_to im) (im_token im) (im_type im) false
+                  (o_act (fun av => at_subject (av_act av)) "") (o_act (fun av => at_type (av_act av)) 0%Z)
+                  (o_act (fun av => at_issuer_account (av_act av)) "") (o_act (fun av => cd_exp (av_cd av)) 0%Z)
+                  (o_act (fun av => cd_iss (av_cd av)) "") (o_act (fun av => cd_nbf (av_cd av)) 0%Z)
+                  (o_act (fun av => cd_sub (av_cd av)) "") (o_act (fun _ => false) true) act_pub)
+          with (src_import_validate now act_pub (gv_of (Some im))).
+        destruct (is_service (im_type im)).
+        + set (sub := if ((if (im_to im =? "") then to_subject (im_local im) else im_to im) =? "") then im_subject im
+                      else (if (im_to im =? "") then to_subject (im_local im) else im_to im)).
+          assert (Hsub : sub = service_key im).
+          { unfold sub, service_key. destruct (im_to im =? "") eqn:Et; cbn [negb].
+            - destruct (to_subject (im_local im) =? ""); reflexivity.
+            - rewrite Et. reflexivity. }
+          change (go_range _ 0%Z ts vr) with (go_range (ovl_body sub) 0%Z ts vr). rewrite ovl_loop.
+          rewrite vc_import, smem_existsb. unfold go_sadd. rewrite smem_existsb. rewrite Hsub.
+          destruct (IH (i + 1)%Z ((vr ++ map goi (flat_map (fun k => when (is_contained_in (service_key im) k || is_contained_in k (service_key im)) Blocking) ts)
+                                   ++ (if existsb (fun k => (k =? service_key im)%string) ts then [GoError] else []))
+                                   ++ map goi (v_import role_of act_of act_pub (Some im)))
+                      (if existsb (fun k => (k =? service_key im)%string) ts then ts else ts ++ [service_key im])) as [ts' Hts].
+          exists ts'. rewrite !map_app, map_when.
+          destruct (existsb (fun k => (k =? service_key im)%string) ts); rewrite ?app_nil_r in *; rewrite <- ?app_assoc in *; cbn [app] in *; rewrite Hts; rewrite <- ?app_assoc; reflexivity.
+        + rewrite vc_import. destruct (IH (i + 1)%Z (vr ++ map goi (v_import role_of act_of act_pub (Some im))) ts) as [ts' Hts].
+          exists ts'. rewrite Hts, map_app, <- app_assoc. reflexivity.
+      - destruct (IH (i + 1)%Z (vr ++ [GoError]) ts) as [ts' Hts]. exists ts'. rewrite Hts. cbn [map goi]. rewrite <- app_assoc. reflexivity. }
+    destruct (Hloop l 0%Z vr []) as [ts' Hts]. rewrite Hts. reflexivity.
   Qed.
 End Oracles.
 
